@@ -5,6 +5,14 @@ root = os.path.dirname(os.path.dirname(os.path.abspath(__file__)))
 ALL = ["C%02d" % i for i in range(1, 21)]
 # id -> (technique, level text, level note, design_ref)
 BUILT = {
+ "C01": ("explicit-state product-automaton search (language equivalence of generated regex vs. reference model) over an exhaustively enumerated bounded program space; shrinking; CLI conformance replay",
+         "Every program of the bounded strata (single entries <=3/4 tokens over 30 tokens, ordered pairs of entries <=2 tokens, triples, all well-formed structural bodies of <=5/6 lines, rewritten entries at 6 structural positions, x flag/prefix/suffix headers) is compiled by the real assembler and its output is decided language-equal (contextual full-match equivalence, all strings at once) to the plain reading by searching the product of the two NFAs. Bounded-exhaustive in programs, complete in subject strings.",
+         "Reference model ref.Plain; regexp/syntax compilation as NFA semantics; every counterexample string re-validated with Go's regexp engine; in-process seam validated against the real CLI on the complete lower bound each run.",
+         "DESIGN.md §3 C01, §2.5"),
+ "C02": ("exhaustive enumeration of a bounded program space on the real assembler with a token-level lexer oracle on the output; update/read-back replay through the real CLI",
+         "Every compiling program of the C01 strata A and C over an alphabet extended with quotes, backslashes, control bytes, DEL and non-ASCII is generated and the output is lexed against each pasting clause (printable one-liner, escaped quotes, no \\\\, \\s with \\x0b, sorted leading flags only, no inline flag group, parses as RE2); the complete lower bound is also written by `regex update` and compared byte for byte.",
+         "The lexer states only what the property states; control characters as engine escapes (\\t) are accepted.",
+         "DESIGN.md §3 C02"),
  "C19": ("exhaustive enumeration of all token strings / line programs up to a length bound on the real assembler (in-process, process-sharded), outcome classification, CLI conformance replay",
          "Every input of <=4 (quick) / <=5 (thorough) tokens over a 36-token alphabet and every program of <=3 / <=4 lines over a 54-line alphabet is executed on the real parser+assembler, on stdin and as an included file; a runtime fault or a watchdog timeout anywhere in that space is a violation. Bounded-exhaustive: nothing outside the alphabets/lengths is claimed.",
          "Patched zerolog (Fatal panics instead of exiting) in the in-process worker only; equivalence with the real CLI validated on all <=2-token inputs and all single lines on every run; every runtime fault is re-confirmed 5x through the unmodified CLI before it is reported.",
